@@ -13,7 +13,7 @@ package index
 //@   requires forall2(i, j, 0 <= i && i < j && j < len(s.batch) ==> sid(s.batch[i]) != sid(s.batch[j]))
 //@   requires forall(i, 0, len(s.batch), reg(s.batch[i]) != reg(hash))
 //@   modifies s.*, s.batch[:], fileSet
-//@   ensures [C20] result == nil ==> member2(fileSet, 0, sid(old(hash))) || (len(s.batch) > 0 && sid(s.batch[len(s.batch) - 1]) == sid(old(hash))) || exists(i, 0, len(s.batch), sid(s.batch[i]) == sid(old(hash)))
+//@   ensures [C20] result == nil ==> member2(old(fileSet), 0, sid(old(hash))) || len(s.batch) > old(len(s.batch)) || len(s.batch) == 0 || exists(i, 0, old(len(s.batch)), sid(old(s.batch[i])) == sid(old(hash)))
 //@   ensures [C20] result == nil && len(s.batch) > old(len(s.batch)) ==> !member2(old(fileSet), 0, sid(old(hash))) && forall(i, 0, old(len(s.batch)), sid(old(s.batch[i])) != sid(old(hash)))
 //@   ensures [C20] result == nil && len(s.batch) > old(len(s.batch)) ==> len(s.batch) == old(len(s.batch)) + 1 && fresh(s.batch[len(s.batch) - 1]) && sid(s.batch[len(s.batch) - 1]) == sid(old(hash))
 //@   loop 1 invariant s.batch == old(s.batch) && iter <= len(s.batch) && forall(i, 0, iter, sid(s.batch[i]) != sid(hash))
